@@ -32,6 +32,23 @@ let rec gtype_of_sexp (x : t) : M.gtype =
   | [A "bad"] -> M.TyBad
   | _ -> failwith "gtype"
 
+(* an embedded pointer to an unexported struct type cannot be allocated by the decoder (finding O-9b) *)
+let rec unexp_emb_ptr (t : M.gtype) : bool =
+  match t with
+  | M.TyPtr e | M.TySlice e | M.TyNamed (_, e) | M.TyArray (_, e) | M.TyMap (_, e) -> unexp_emb_ptr e
+  | M.TyStruct fs ->
+      List.exists (fun (fi, ft) ->
+        (fi.M.fi_embedded && not fi.M.fi_exported && (match M.strip_named ft with M.TyPtr _ -> true | _ -> false)) || unexp_emb_ptr ft) fs
+  | _ -> false
+
+(* marshaler types decode through their own UnmarshalJSON: outside the decoder model *)
+let rec has_std (t : M.gtype) : bool =
+  match t with
+  | M.TyStd _ -> true
+  | M.TyPtr e | M.TySlice e | M.TyNamed (_, e) | M.TyArray (_, e) | M.TyMap (_, e) -> has_std e
+  | M.TyStruct fs -> List.exists (fun (_, ft) -> has_std ft) fs
+  | _ -> false
+
 exception Unsupported
 (* values of recursive types and of types with unsupported kinds are outside the model's values *)
 let rec expressible (t : M.gtype) : bool =
@@ -96,7 +113,10 @@ let run_infer (id : string) (fields : t list) (field1 : string -> t list -> t) (
                   let in_dom = (not ig) && List.for_all (fun (_, e) -> e = Some M.str_schema) schemas && M.dom o ty in
                   let cf = if in_dom then " spec_mv=" ^ String.concat "" (List.map (fun j -> if M.conforms o (nat_of_int 64) ty j then "V" else "I") muts) else "" in
                   let ce = if in_dom && List.for_all (fun x -> x <> None) encs then " spec_v=" ^ String.concat "" (List.map (function Some j -> if M.conforms o (nat_of_int 64) ty j then "V" else "I" | None -> "?") encs) else "" in
-                  Printf.sprintf "%s for=ok doc=%s res=ok enc=%s v=%s mv=%s%s%s" id doc enc_s vs mv cf ce
+                  (* the decoder model (inf/Decode.v) against the real decoder, on every mutated document *)
+                  let dec_dom = in_dom && not (has_std ty) && not (unexp_emb_ptr ty) && List.for_all (fun j -> M.json_wf j && M.in_i64 j) muts in
+                  let cd = if dec_dom then " spec_impl_decall=" ^ String.concat "" (List.map (fun j -> if M.decodes (nat_of_int 64) ty j then "D" else "E") muts) else "" in
+                  Printf.sprintf "%s for=ok doc=%s res=ok enc=%s v=%s mv=%s%s%s%s" id doc enc_s vs mv cf ce cd
               | r -> Printf.sprintf "%s for=ok doc=%s res=%s" id doc (res_tag r))
            with Unsupported -> Printf.sprintf "%s for=ok doc=%s model_partial=1" id doc)
        | r -> id ^ " for=ok doc=marshal-" ^ res_tag r)
